@@ -11,7 +11,10 @@ import (
 	"os"
 	"time"
 
+	bc "github.com/dappledger/AnnChain/gemmill/blockchain"
+	dbm "github.com/dappledger/AnnChain/gemmill/modules/go-db"
 	"github.com/dappledger/AnnChain/gemmill/types"
+	"github.com/spf13/viper"
 )
 
 type vC07 struct {
@@ -166,5 +169,125 @@ func VerifHarness_C07_replay_mode() {
 		vAssert(len(cs.internalMsgQueue) == 0 && len(w.signer.votes) == 0, "W2-refused-signature-emits-nothing")
 	} else {
 		vAssert(len(w.signer.votes) == 1, "W2-one-prevote-signed")
+	}
+}
+
+// the lines appended to the WAL by the code under test (engine: arguments of the stubbed
+// Group.WriteLine; natively: the real file)
+func (w *vC07) walLines() []string {
+	var lines []string
+	if vSymbolic() {
+		n := vStubCalls("go-autofile.Group).WriteLine")
+		for k := 0; k < n; k++ {
+			lines = append(lines, vStubArgString("go-autofile.Group).WriteLine", k, 1))
+		}
+		return lines
+	}
+	b, err := ioutil.ReadFile(w.dir + "/wal")
+	if err != nil {
+		return nil
+	}
+	all := bytes.Split(bytes.TrimSuffix(b, []byte("\n")), []byte("\n"))
+	for _, l := range all[w.base:] {
+		lines = append(lines, string(l))
+	}
+	return lines
+}
+
+// W3: when the node moves to the next height, the "#HEIGHT: h+1" marker goes into the log right before
+// the NewHeight step record — in normal operation AND when the move happens during replay (a commit
+// completed by replayed votes): without the marker a later restart cannot find the records of h+1.
+func VerifHarness_C07_height_marker() {
+	w := vC07New(vNondetBool("light"))
+	defer w.cleanup()
+	cs := w.cs
+	cs.BaseService = *vNewBase()
+	cs.config = viper.New()
+	if vSymbolic() {
+		vSetStub("Viper).GetString", vChain)
+	} else {
+		cs.config.Set("chain_id", vChain)
+	}
+	w.setRound(0)
+	cs.Step = RoundStepCommit
+	cs.CommitRound = 0
+	w.seed(0, 0, types.VoteTypePrecommit, 1)
+	w.seed(2, 0, types.VoteTypePrecommit, 1)
+	w.seed(3, 0, types.VoteTypePrecommit, 1)
+	cs.replayMode = vNondetBool("replaying")
+	next := *cs.state
+	next.LastBlockHeight = cs.Height
+	before := len(w.walLines())
+	cs.updateToState(&next)
+	vReach("moved-to-next-height")
+	vAssert(cs.Height == 6 && cs.Step == RoundStepNewHeight, "W3-node-at-next-height")
+	lines := w.walLines()[before:]
+	markers, at := 0, -1
+	for i, l := range lines {
+		if l == "#HEIGHT: 6" {
+			markers++
+			at = i
+		}
+	}
+	vAssert(markers == 1, "W3-next-height-marker-written-exactly-once")
+	vAssert(len(lines) == 2 && at == 0 && lines[1] != "#HEIGHT: 6", "W3-marker-precedes-the-new-height-step-record")
+}
+
+// W4: a restarted node rebuilds the previous height's commit from the seen-commit stored with the
+// block: for every committed vote pattern (each validator precommitted the block, nil, or nothing;
+// more than 2/3 for the block; commit round 0 or 1) the rebuilt vote set holds exactly the stored
+// precommits, has the same +2/3 majority, and the reconstruction does not panic.
+func VerifHarness_C07_reconstruct_last_commit() {
+	h := vNewCS(4, 2, vMe)
+	cs := h.cs
+	cs.config = viper.New()
+	if vSymbolic() {
+		vSetStub("Viper).GetString", vChain)
+	} else {
+		cs.config.Set("chain_id", vChain)
+	}
+	round := int64(vNondetLen("commit-round", 0, 1))
+	bid := cs.state.LastBlockID
+	vs := types.NewVoteSet(vChain, 1, round, types.VoteTypePrecommit, cs.state.LastValidators)
+	nFor := 0
+	for i := 0; i < 4; i++ {
+		switch vNondetLen("precommit", 0, 2) {
+		case 1:
+			added, err := vs.AddVote(vVote(i, 1, round, types.VoteTypePrecommit, bid, true, byte(10+i)))
+			vAssume(added && err == nil)
+			nFor++
+		case 2:
+			added, err := vs.AddVote(vVote(i, 1, round, types.VoteTypePrecommit, types.BlockID{}, true, byte(20+i)))
+			vAssume(added && err == nil)
+		}
+	}
+	vAssume(nFor >= 3) // the previous block was committed: more than 2/3 of 4 equal validators
+	seen := vs.MakeCommit()
+	if vSymbolic() {
+		vSetStub("BlockStore).LoadSeenCommit", seen)
+	} else {
+		store := bc.NewBlockStore(dbm.NewMemDB(), dbm.NewMemDB())
+		b := vBlock(1, 0x7)
+		b.Header.Time = time.Unix(1500000000, 0)
+		store.SaveBlock(b, b.MakePartSet(4096), seen)
+		cs.blockStore = store
+	}
+	cs.LastCommit = nil
+	cs.reconstructLastCommit(cs.state) // a panic here is a finding
+	vReach("reconstructed")
+	lc := cs.LastCommit
+	vAssert(lc != nil, "W4-last-commit-rebuilt")
+	if lc == nil {
+		return
+	}
+	id, ok := lc.TwoThirdsMajority()
+	vAssert(ok && id.Equals(bid), "W4-rebuilt-commit-has-the-same-majority")
+	vAssert(lc.Height() == 1 && lc.Round() == round && lc.Type() == types.VoteTypePrecommit, "W4-rebuilt-commit-is-for-the-same-height-and-round")
+	for i := 0; i < 4; i++ {
+		a, b := vs.GetByIndex(i), lc.GetByIndex(i)
+		vAssert((a == nil) == (b == nil), "W4-every-stored-precommit-is-back")
+		if a != nil && b != nil {
+			vAssert(a.BlockID.Equals(b.BlockID), "W4-precommit-unchanged")
+		}
 	}
 }
